@@ -158,7 +158,9 @@ class TypeInfer:
                 problems.append(f"seed table row {cq}.{f}: no initialiser found")
                 continue
             want = ast.List if t[0] == 'list' else ast.Dict
-            if not isinstance(init[1], want):
+            empty_call = isinstance(init[1], ast.Call) and isinstance(init[1].func, ast.Name) and \
+                init[1].func.id == t[0] and not init[1].args and not init[1].keywords
+            if not isinstance(init[1], want) and not empty_call:
                 problems.append(f"seed table row {cq}.{f}: initialiser {ast.unparse(init[1])} is not a {t[0]} literal")
         return problems
 
